@@ -1107,6 +1107,12 @@ func (hash *SexpHash) SexpString(ps *PrintState) string {
 }
 
 func (r *SexpHash) Type() *RegisteredType {
+	// an instance of a script-declared struct is of the declaration it was
+	// created with; looking the type up by name made instances created
+	// before a redeclaration report the later declaration as their type.
+	if r.GoStructFactory != nil && r.GoStructFactory.UserStructDefn != nil {
+		return r.GoStructFactory
+	}
 	return GoStructRegistry.Registry[r.TypeName]
 }
 
